@@ -94,6 +94,10 @@ CALLS = {
     "en_fmt": P("12 March", languages=["en"], date_formats=["%d %B"]),
     "en_ts": P("1425995415", languages=["en"], settings={"TIMEZONE": "Asia/Tokyo"}),
     "en_tz": P("12 March 2015 10:30 EST", languages=["en"], settings={"TO_TIMEZONE": "Asia/Kolkata"}),
+    # secondary entry points that carry the settings decorator themselves
+    "absparse_num": {"op": "absparse", "s": "01/02/2020"},
+    "detect_de": {"op": "detect_language", "text": "am 7. Juni 1999 und gestern", "kw": {"languages": ["de", "fr"]}},
+    "search_obj_fr": {"op": "search_obj", "text": "le 3 mars 2012 et hier", "kw": {"languages": ["fr"]}},
     "auto_en": P("12 March 2015"),
     "auto_fr": P("12 mars 2015"),
 }
@@ -112,6 +116,7 @@ PAIRS_QUICK = [
     ("failing-intruder", "fr_num", "search_bad", True), ("failing-intruder", "fr_num", "parse_badlang", True), ("failing-intruder", "search_en", "parse_badtz", True),
     ("settings-instance", "search_en_inst", "en_skipfoo_jan", True), ("settings-instance", "parse_en_inst", "fr_num", True), ("language-or-order", "fr_num", "hijri", True),
     ("live-instance", "slot_fr_first", "parse_en_first", True),
+    ("secondary-entry", "fr_num", "absparse_num", True), ("secondary-entry", "search_fr", "detect_de", True), ("secondary-entry", "search_obj_fr", "search_de", True),
 ]
 PAIRS_MORE = [
     ("language-or-order", "en_nolocale_order", "tl_num", True), ("language-or-order", "tl_txt", "fr_num", True), ("language-or-order", "jalali_short", "en_dmy", True),
@@ -165,7 +170,7 @@ def _setup(p):
     for op in flat:
         if op["op"] in ("get_date_data", "get_date_tuple"):
             c03_history.exec_op({"op": "new_parser", "slot": op["slot"], "kw": op["ctor"], "clock_us": op["clock_us"]}, slots)
-        if op["op"] == "search":
+        if op["op"] in ("search", "search_obj", "detect_language"):
             import dateparser.search  # noqa: F401  (module import is not part of the race)
         if op["op"] in ("jalali", "hijri"):
             import dateparser.calendars.hijri  # noqa: F401
